@@ -107,6 +107,10 @@ def analyze(case, seed=0, fault_at=None, fault_kind="raise"):
     a.ctr["applies"] = 1
     if case.get("driver") == "passes":
         a.ctr["applies_through_passmanager"] = 1
+    n_intel = sum(1 for e in case["edits"]
+                  if isinstance(e.get("p"), dict) and e["p"].get("intel"))
+    if n_intel:
+        a.ctr["intel_syntax_patches"] = n_intel
     if case.get("cross_patch_refs"):
         a.ctr["applies_with_cross_patch_references"] = 1
     a.ctr["patch_invocations"] = len(run.rec.invocations)
